@@ -11,7 +11,7 @@ import numpy as np
 
 from harness import common as C
 
-ANCHORS = ["T1", "T3"]
+ANCHORS = ["T1", "T3", "T5cpcca"]
 MODELS = ["Validate"]
 TARGETS = ["Proofs/C17_tie.vo"]
 RULE = ("validators: enumerated grid of python values (ints incl. 0/negatives/bools, floats incl. 0.0, 1.0, 1.5, nan, inf, "
@@ -616,6 +616,11 @@ def api_calls(ctx):
                 calls.append(Call(rname + ".inverse_transform", "X", fault, expect, (lambda sc=sc: model.inverse_transform(sc, sy)),
                                   "code (first_err [inverse_outcome %d %s; inverse_outcome %d %s])" % (k, coq_scores(sc), k, coq_scores(sy)),
                                   detail="%s.inverse_transform(<%s>, scores_Y)" % (rname, fault)))
+            # ... and the fault in the second field's scores, the first field's being valid
+            for fault, expect, sc in score_mutations(sy):
+                calls.append(Call(rname + ".inverse_transform", "Y", fault, expect, (lambda sc=sc: model.inverse_transform(sx, sc)),
+                                  "code (first_err [inverse_outcome %d %s; inverse_outcome %d %s])" % (k, coq_scores(sx), k, coq_scores(sc)),
+                                  detail="%s.inverse_transform(scores_X, <%s>)" % (rname, fault)))
     b3 = xe.cross.MCA(n_modes=3, n_pca_modes=4).fit(X, Y, "time")
     for nm, expect in ((2, "result"), (0, "error"), (1, "error"), ("few", "error"), (None, "error"), (7, None)):
         flt = ("valid:n_modes=%r" if expect == "result" else ("outside:n_modes=%r" if expect is None else "n_modes=%r")) % (nm,)
